@@ -56,12 +56,16 @@ class CallGraph:
                 for o in _operands(rv):
                     if o.get("k") == "const" and o.get("fn") and o["fn"] in crate.bodies:
                         loc.add(o["fn"])
+                    elif o.get("k") == "const" and o.get("fn") and o.get("s") in crate.bodies:
+                        loc.add(o["s"])         # a trait method named through its impl: `JsonValue::from`
                 if rv["k"] == "agg" and rv.get("agg") == "closure" and rv["closure"] in crate.bodies:
                     loc.add(rv["closure"])
             for c in body.calls:
                 for o in c.args:
                     if o.get("k") == "const" and o.get("fn") and o["fn"] in crate.bodies:
                         loc.add(o["fn"])
+                    elif o.get("k") == "const" and o.get("fn") and o.get("s") in crate.bodies:
+                        loc.add(o["s"])
 
     def forwarded(self, c):
         """std blanket impls that forward to a local impl: Into->From, TryInto->TryFrom,
